@@ -1,15 +1,14 @@
 SPECIFICATION Spec
 CONSTANTS
   NF = 2
-  MaxLen = 10
+  MaxLen = 9
   Kinds = {"mod", "add", "addempty", "del", "rename", "renmod", "copy", "modeonly", "modemod", "bin", "binadd"}
   MaxHunks = 2
   MaxBody = 3
   Preamble = TRUE
   MaxConf = 1
   Buf = 1
-  Fixes = {"D14", "D2", "D18", "D19", "D20"}
+  Fixes = {"D1", "D14", "D2", "D18", "D19"}
   ReplayLen = 0
-INVARIANTS RowsOnceInOrder Lag PrefixStable Boundary Replay
-PROPERTY NeverRevised
+INVARIANTS LanguageByName
 CHECK_DEADLOCK FALSE
